@@ -1486,6 +1486,15 @@ class BuiltinMixin:
     def b_contextlib_suppress(self, st, args, kwargs):
         return [(st, VConst(("suppress", tuple(args))))]
 
+    def b_asyncio_get_running_loop(self, st, args, kwargs):
+        return [(st, VConst(("asyncio-loop",)))]
+
+    def m_const_run_in_executor(self, st, cv, args, kwargs):
+        # await loop.run_in_executor(executor, f, *args) == f(*args) (await erased; DESIGN 3)
+        if not (isinstance(cv, VConst) and cv.py == ("asyncio-loop",)):
+            raise Unsupported("run_in_executor on unknown object")
+        return self.call_value(st, args[1], list(args[2:]), {})
+
     def b_functools_partial(self, st, args, kwargs):
         return [(st, VConst(("partial", args[0], tuple(args[1:]), tuple(kwargs.items()))))]
 
